@@ -62,6 +62,25 @@ class Caught(object):
         self.vid = vid
 
 
+from asynq.async_task import AsyncTask as _AsyncTask
+
+
+class VTask(_AsyncTask):
+    """a user-defined task class (@asynq(cls=VTask)): must be scheduled like any AsyncTask"""
+
+
+class VFuture(Future):
+    """a user-defined subclass of the lazily computed Future"""
+
+
+class VBaseErr(BaseException):
+    """an error that derives from BaseException only (like KeyboardInterrupt): `except Exception` does not catch it"""
+
+    def __init__(self, vid):
+        BaseException.__init__(self, "vbase-%d" % vid)
+        self._vvid = vid
+
+
 class VErr(Exception):
     """exception raised by the program / harness; vid = schedule independent id"""
 
@@ -188,6 +207,17 @@ class Run(object):
             return V("fut", self.obj_id[id(x)])
         return V("opaque", 0)
 
+    def probe_reprs(self):
+        """formatting any live asynq object is a diagnostic: it must not compute, start or change anything"""
+        if len(self.keep) > 60:
+            return
+        for o in list(self.task_obj.values()) + self.keep[:40]:
+            try:
+                repr(o)
+                str(o)
+            except Exception:
+                pass
+
     def active_id(self):
         a = _sched.get_active_task()
         if a is None:
@@ -217,7 +247,11 @@ class Run(object):
     def get_task(self, u, by):
         obj = self.task_obj.get(u)
         if obj is None:
-            obj = self.fns[u].asynq()
+            if (u + by) % 4 == 0:
+                from asynq import async_call
+                obj = async_call.asynq(self.fns[u])       # "not sure whether fn is async": must hand back fn.asynq()
+            else:
+                obj = self.fns[u].asynq()
             self.register_task(u, obj, by)
         return obj
 
@@ -288,11 +322,11 @@ class Run(object):
             obj = ErrorFuture(err)
             self.emit("NewFut", a=fid, b=2, v=V("x", err._vvid), u=err._vuid)
         elif g == "L":
-            obj = Future(lambda fid=fid: self._provide(fid, True))
+            obj = (VFuture if fid % 2 else Future)(lambda fid=fid: self._provide(fid, True))
             obj.on_computed.subscribe(lambda f, fid=fid: self._done(fid, f))
             self.emit("NewFut", a=fid, b=3, v=VNONE, u=0)
         elif g == "LF":
-            obj = Future(lambda fid=fid: self._provide(fid, False))
+            obj = (VFuture if fid % 2 else Future)(lambda fid=fid: self._provide(fid, False))
             obj.on_computed.subscribe(lambda f, fid=fid: self._done(fid, f))
             self.emit("NewFut", a=fid, b=4, v=VNONE, u=0)
         else:
@@ -388,6 +422,21 @@ class Run(object):
             self.keep.append(h)
             return h.body
 
+        if t % 4 == 2:
+            @asynq.asynq(pure=True, cls=VTask)
+            def pbody():
+                return (yield from run._interp(t))
+
+            # a pure function of a custom task class, given the usual conventions by hand
+            class _Conv(object):
+                def asynq(self):
+                    return pbody()
+
+                def __call__(self):
+                    return pbody().value()
+
+            return _Conv()
+
         @asynq.asynq()
         def body():
             return (yield from run._interp(t))
@@ -414,6 +463,7 @@ class Run(object):
                     seg = segs[k - 1]
                     unc = [f for (f, o) in run.last_struct.get(t, ()) if not o.is_computed()]
                     run.emit("SegBegin", t=t, k=k, v=run.enc(recv), u=ru, a=run.active_id(), xs=unc)
+                    run.probe_reprs()
                     for op in seg["ops"]:
                       o = op["o"]
                       try:
@@ -465,7 +515,9 @@ class Run(object):
                         obj, res = run.build(t, k, term["s"], [0])
                         run.emit("SegEnd", t=t, k=k, b=1, s=res, a=run.active_id())
                         try:
-                            recv = yield obj
+                            got = yield obj
+                            recv = _snapshot(got)
+                            _poison(got)           # whatever asynq handed us is ours: nobody else may see these changes
                             ru = 0
                             recvs.append(recv)
                         except GeneratorExit:
@@ -495,6 +547,11 @@ class Run(object):
                     elif tk == "raise":
                         run.emit("SegEnd", t=t, k=k, b=4, s=V("N"), a=run.active_id())
                         raise run.new_err(10000 + t * 100 + k)
+                    elif tk == "raiseb":
+                        run.emit("SegEnd", t=t, k=k, b=4, s=V("N"), a=run.active_id())
+                        e = VBaseErr(11000 + t * 100 + k)
+                        run.exc_ids(e)
+                        raise e
                     else:
                         raise ValueError(tk)
             except BaseException as e:
@@ -601,6 +658,30 @@ class Run(object):
         if self.in_sched_flush and self.in_sched_flush[-1] == bid:
             self.in_sched_flush.pop()
         self.emit("After", b=bid)
+
+
+def _snapshot(x):
+    if isinstance(x, list):
+        return [_snapshot(y) for y in x]
+    if isinstance(x, tuple):
+        return tuple(_snapshot(y) for y in x)
+    if isinstance(x, dict):
+        return dict((k, _snapshot(v)) for k, v in x.items())
+    return x
+
+
+def _poison(x):
+    if isinstance(x, list):
+        for y in x:
+            _poison(y)
+        x.append("poison")
+    elif isinstance(x, tuple):
+        for y in x:
+            _poison(y)
+    elif isinstance(x, dict):
+        for y in list(x.values()):
+            _poison(y)
+        x["zz-poison"] = "poison"
 
 
 class _FakeClock(object):
